@@ -474,6 +474,31 @@ def main(run):
     histlib.pmap(lambda c: execute_case(run, shoot, c, nexec), cases)
     nruns = sum(len(p["execs"]) + 2 for c in cases for p in c.points)
     run.log("shoot runs done:", nruns)
+    # fixed block (harness/c07fixed.py): no draw from run.rng, judged by direct byte comparison
+    import c07fixed
+    fx_stale, fx_det = c07fixed.run_fixed(run, shoot, histlib.pmap)
+    fx_runs = sum(x.get("runs", 0) for x in fx_stale + fx_det)
+    fx_fail = [x for x in fx_stale + fx_det if x.get("fail") or x.get("broken")]
+    run.log("fixed block: %d stale-output histories, %d repeated-execution cases, %d shoot runs, %d failing"
+            % (len(fx_stale), len(fx_det), fx_runs, len(fx_fail)))
+    for x in fx_fail[:6]:
+        c = x["case"]
+        stale = "v0" in c
+        run.violation({"kind": "property-fails-on-implementation" if x.get("fail") else "correspondence-broken",
+                       "theorem": "C07_run_independent_of_schedule_and_history / C07_twice_is_fixpoint",
+                       "correspondence": "L2:C07:fixed block (harness/c07fixed.py): direct byte comparison of what the command wrote",
+                       "case": {"name": c["name"], "package_dir": c["pkg"], "command": c["args"],
+                                "history": (["fresh run on sources_v0", "edit: " + c["edit"] + " (output left in place)", "run", "run",
+                                             "delete the output", "run"] if stale else
+                                            "the same command %d times: fresh, then cycling repeat / delete the output and run / fresh "
+                                            "copy of the module at another path" % c07fixed.NEXEC_QUICK)},
+                       "sources_by_version": [c["v0"], c["v1"]] if stale else [c["files"]],
+                       "expected": ("every run after the edit writes the bytes the same command writes on a fresh copy of the edited "
+                                    "sources" if stale else "every execution writes the same bytes"),
+                       "observed": x.get("fail") or x.get("broken"), "steps": x.get("steps"),
+                       "how": "module with go.mod `replace shoot => <repo>`, the files of sources_by_version[0] written below it, the "
+                              "command run in <package_dir>; files named *.shoot*.go are the output"},
+                      no_input=not x.get("fail"))
     rendered = [coq_case(c) for c in cases]
     mism, skipped = histlib.coq_shards(run, "c07", rendered, "mismatches_c07", "c07case", shard=5, count_fn="skipped_c07")
     run.log("coq done, mismatches:", mism)
@@ -489,7 +514,7 @@ def main(run):
                               "apply the edit / delete the *.shoot<cmd>*.go files, copy the module directory, run the command in "
                               "each copy (the last one as `shoot <args> ./<pkg>` from the module root), compare the bytes; the "
                               "reference is the same command on a fresh copy of the current sources"}, no_input=(v != 2))
-    if not proof_ok and not mism:
+    if not proof_ok and not mism and not fx_fail:
         run.proof_failure_violation()
     kinds = {}
     changed = 0
@@ -500,7 +525,11 @@ def main(run):
             if i > 0 and p["execs"][0]["files"] != c.points[i - 1]["execs"][0]["files"]:
                 changed += 1
     cov = {
-        "evaluations": nruns,
+        "evaluations": nruns + fx_runs,
+        "fixed_block": {"stale_output_histories": len(fx_stale), "repeated_execution_cases": len(fx_det),
+                        "executions_per_repeated_case": c07fixed.NEXEC_THOROUGH if run.thorough() else c07fixed.NEXEC_QUICK,
+                        "shoot_invocations": fx_runs, "failing": len(fx_fail),
+                        "cases": [x["case"]["name"] for x in fx_stale + fx_det]},
         "distinct_nontrivial": len({json.dumps([c.cmd.argv(), c.sources], sort_keys=True) for c in cases
                                     if any(p["edit"] is not None or p["delete"] for p in c.points)}),
         "rule": ("packages of harness/histgen.py (%s), command in one of the modes -file= (+ -sep), -type=* with a go:generate "
@@ -512,7 +541,12 @@ def main(run):
                  "copy of the current sources.  non-trivial = distinct (command, source versions) whose history has an edit or a "
                  "deletion; plus fixed histories: the corpus packages of c08.py (fresh, repeat, delete), new -getset -json -type=* "
                  "repeated twice (the second run lists the first run's output), new -getset with one file per type where the "
-                 "accessor interfaces of the embedded type appear/disappear while the old output stays" % (plan, nexec)),
+                 "accessor interfaces of the embedded type appear/disappear while the old output stays; plus the fixed block of "
+                 "harness/c07fixed.py (same on every seed, direct byte comparison, not part of distinct_nontrivial): new with "
+                 "-getset/-json/-opt combinations where a field's accessor directive appears/disappears between runs with the "
+                 "stale output in place, enum/map analogues, and repeated executions of map on ShootNew-marker types with "
+                 "hand-written accessors (parseGetSetMethods fallback), a wide new -getset -json -opt type, enum -json -type=*"
+                 % (plan, nexec)),
         "exhaustive": False,
         "traces_validated_against_impl": sum(len(c.points) for c in cases),
         "programs": len(cases),
